@@ -11,6 +11,7 @@ import CstructModel.Stubgen
 import CstructModel.Compiler
 import CstructModel.Compile
 import CstructModel.DefParser
+import CstructModel.Update
 open Cstruct Cstruct.Proto
 
 def pairs? (s : Sexp) : Option (List (String × Int)) :=
@@ -405,6 +406,28 @@ def handle (s : Sexp) : Sexp :=
         match Compiler.compile cfg al fs offs with
         | .ok plan => .list [.atom "ok", .list (plan.map instrSexp)]
         | .error () => .list [.atom "fallback"]
+    | _, _ => .list [.atom "bad-args"]
+  -- (updhist cfg align (op ...)), op = (add "name" T bits|none) | (addfail) | (enter) | (exitok) | (exitexc) | (commit):
+  -- the update protocol on an empty structure; after every op (committed names, size, alignment, committed offsets,
+  -- __updating__, the error commit raised | none, names of __fields__, their offsets)
+  | .list [.atom "updhist", c, al, .list ops] =>
+    let parseOp : Sexp → Option Update.Op := fun o => match o with
+      | Sexp.list [Sexp.atom "add", n, t, b] => match n.string?, parseTy t with
+        | some name, .ok ty => some (.addField name ty (match b.nat? with | some 0 => none | k => k))
+        | _, _ => none
+      | Sexp.list [Sexp.atom "addfail"] => some .addFieldFails
+      | Sexp.list [Sexp.atom "enter"] => some .enter
+      | Sexp.list [Sexp.atom "exitok"] => some .exitOk
+      | Sexp.list [Sexp.atom "exitexc"] => some .exitExc
+      | Sexp.list [Sexp.atom "commit"] => some .commit
+      | _ => none
+    match parseCfg c, ops.mapM parseOp with
+    | .ok cfg, some ops =>
+      .list (.atom "ok" :: (Update.trace cfg (al.nat? != some 0) Update.UState.init ops).map fun s =>
+        .list [.list ((Update.names s.cfields).map .str), optNat s.layout.1, .atom (toString s.layout.2.1),
+          .list (s.layout.2.2.map optNat), .atom (if s.updating then "1" else "0"),
+          (match s.commitErr with | some e => errSexp e | none => .atom "none"),
+          .list ((Update.names s.fields).map .str), .list (s.persisted.map optNat)])
     | _, _ => .list [.atom "bad-args"]
   | _ => .list [.atom "bad-op"]
 
